@@ -203,7 +203,7 @@ def summarise(it, seq, node, gen, frame):
         fr = Frame(frame.fn, {}, frame.node, frame.qn)
         fr.globals, fr.cells, fr.parent = frame.globals, frame.cells, frame
         try:
-            sub.assign(gen.target, getter(j), fr)
+            sub.assign(gen.target, seq.elt_it(sub, j) if getattr(seq, "elt_it", None) is not None else getter(j), fr)
             passed = True
             for c in gen.ifs:
                 if not sub.truth(sub.eval(c, fr)):
@@ -271,7 +271,23 @@ def summarise(it, seq, node, gen, frame):
                 raise Unsupported("string element without z3 form in a comprehension over a symbolic sequence")
             return z
     elif not all(is_num(v) for _, v in vals):
-        raise Unsupported("comprehension over a symbolic sequence yields elements that are neither numbers nor strings")
+        # elements are objects / tuples: keep the filter condition as a term and re-evaluate the element lazily, inline,
+        # in the consumer's interpreter (the consumer has cond(i) on its path, so the skip/raise legs are infeasible there)
+        cond_t = z3.Or(*[g for g, _ in vals])
+
+        def elt_it(it2, i, seq=seq, gen=gen, node=node, frame=frame, getter=getter):
+            fr = Frame(frame.fn, {}, frame.node, frame.qn)
+            fr.globals, fr.cells, fr.parent = frame.globals, frame.cells, frame
+            it2.assign(gen.target, seq.elt_it(it2, i) if getattr(seq, "elt_it", None) is not None else getter(i), fr)
+            for cnd in gen.ifs:
+                if not it2.truth(it2.eval(cnd, fr)):
+                    raise Infeasible()
+            return it2.eval(node.elt, fr)
+
+        res = SFiltered(n, lambda i: subst(cond_t, i), None, name="comp(%s)" % seq.name)
+        res.objects = True
+        res.elt_it = elt_it
+        return res
     else:
         allint = all(is_intlike(v) for _, v in vals)
         conv = to_int if allint else to_real
@@ -295,6 +311,7 @@ def generator_filter_loop(it, node, frame, seq):
     j = z3.Int(_fresh("gy"))
     outer = it.path
     results = []
+    mapped = [False]
     work = [[]]
     while work:
         prefix = work.pop()
@@ -308,7 +325,7 @@ def generator_filter_loop(it, node, frame, seq):
         fr.globals, fr.cells, fr.parent = frame.globals, frame.cells, frame.parent
         ys = []
         fr.locals["__yield__"] = ys
-        elem = getter(j)
+        elem = seq.elt_it(sub, j) if getattr(seq, "elt_it", None) is not None else getter(j)
         try:
             sub.assign(node.target, elem, fr)
             try:
@@ -318,8 +335,10 @@ def generator_filter_loop(it, node, frame, seq):
                     pass
                 else:
                     raise
-            if len(ys) > 1 or (ys and ys[0] is not elem):
-                raise Unsupported("generator loop yields something other than its element once")
+            if len(ys) > 1:
+                raise Unsupported("generator loop yields more than once per element")
+            if ys and ys[0] is not elem:
+                mapped[0] = True
             results.append((p.pc[base:], bool(ys)))
         except Infeasible:
             pass
@@ -344,4 +363,25 @@ def generator_filter_loop(it, node, frame, seq):
         cond_t = z3.And(base_cond(j), cond_t)
     res = SFiltered(n, lambda i: z3.substitute(cond_t, (j, to_int(i))), getter, name="yielded(%s)" % getattr(seq, "name", "seq"))
     res.objects = True
+    if mapped[0] or getattr(seq, "elt_it", None) is not None:
+        # the value yielded is computed from the element: re-run the loop body inline for index i in the consumer
+        def elt_it(it2, i, seq=seq, node=node, frame=frame, getter=getter):
+            fr = Frame(frame.fn, dict(frame.locals), frame.node, frame.qn)
+            fr.globals, fr.cells, fr.parent = frame.globals, frame.cells, frame.parent
+            ys = []
+            fr.locals["__yield__"] = ys
+            it2.assign(node.target, seq.elt_it(it2, i) if getattr(seq, "elt_it", None) is not None else getter(i), fr)
+            try:
+                it2.exec_block(node.body, fr)
+            except Exception as e:
+                if type(e).__name__ != "_Continue":
+                    raise
+            if len(ys) != 1:
+                raise Infeasible()
+            return ys[0]
+
+        res.elt = None
+        res.elt_it = elt_it
+    else:
+        res.elt_it = lambda it2, i: getter(i)
     return res
